@@ -268,10 +268,142 @@ Lemma own_selection_nonvacuous :
   = Some [Set_ 2 (SInst (Obj 5)) true; Set_ 1 (SName 1) false; Enter 2 (SInst (Obj 0)) false; Query 3;
           Exit_ 2 true; Query 3; Query 2] /\
   p_out (b_priv (m_b (o_m (fst r))) 3) = [OName 1; OName 6] /\
-  p_out (b_priv (m_b (o_m (fst r))) 2) = [ODone; ODone; ODone; OName 6].
+  p_out (b_priv (m_b (o_m (fst r))) 2) = [ODone; ODone; OReraised; OName 6].
 Proof.
   cbv zeta. split; [|split].
   - intros t. do 4 (destruct t as [|t]; [vm_compute; reflexivity|]). vm_compute. reflexivity.
   - vm_compute. repeat split; discriminate.
+  - vm_compute. repeat split.
+Qed.
+
+(* ---- the hypothesis of micro_own_selection_atomic as a condition on the start state and the programs *)
+Section Prog.
+Variables (R : rules) (c : cfg).
+
+(* a thread-local slot, once written, is never cleared *)
+Lemma act_keeps_tls sh p a : p_tls p <> None -> p_tls (act_priv c sh p a) <> None.
+Proof.
+  intros H. destruct a; simpl; try exact H; try discriminate.
+  destruct (p_ctx p) as [|[old l] k]; exact H.
+Qed.
+
+Lemma trun_keeps_tls : forall l sh p, p_tls p <> None -> p_tls (snd (trun c (sh, p) l)) <> None.
+Proof.
+  induction l as [|a l IH]; intros sh p H; [exact H|].
+  change (trun c (sh, p) (a :: l)) with (trun c (t1 c (sh, p) a) l). unfold t1. cbn [fst snd].
+  apply IH. now apply act_keeps_tls.
+Qed.
+
+Lemma astep_keeps_tls b a t : p_tls (b_priv b t) <> None -> p_tls (b_priv (astep R c b a) t) <> None.
+Proof.
+  intros H. unfold astep. destruct (block_of R c b a) as [u l].
+  destruct (bblock_spec c u l b) as (_ & B & C).
+  destruct (Nat.eq_dec t u) as [->|Hn]; [rewrite B; now apply trun_keeps_tls | rewrite (C t Hn); exact H].
+Qed.
+
+Lemma saves_own_from_start : forall H b,
+  (forall t, In (ASaveOp t) H -> p_tls (b_priv b t) <> None) -> saves_own R c b H.
+Proof.
+  induction H as [|a H IH]; intros b Hs; [exact Logic.I|].
+  split.
+  - destruct a; try exact Logic.I. apply Hs. now left.
+  - apply IH. intros t Ht. apply astep_keeps_tls. apply Hs. now right.
+Qed.
+
+(* a first half of an entry is emitted only for an entry that some event of the schedule began (or that
+   was already in flight at the start) *)
+Definition in_flight_enter (s : ost) (t : tid) : Prop :=
+  has_lp (m_pend (o_m s) t) = true /\ is_enter (fst (o_cur s t)) = true.
+
+Lemma ostep_save_origin s e t : kinv R c s -> In (ASaveOp t) (snd (ostep R c s e)) -> in_flight_enter s t.
+Proof.
+  intros K. destruct e as [o | u]; simpl.
+  - destruct (m_pend (o_m s) (thr o)); intros [].
+  - destruct (m_pend (o_m s) u) as [|[a lp] rest] eqn:E; [intros []|].
+    destruct lp; [|intros []].
+    pose proof (K u) as Ku. cbv zeta in Ku. rewrite E in Ku. specialize (Ku eq_refl).
+    destruct (o_cur s u) as [o ph] eqn:Eo. destruct Ku as (Ht & _ & _).
+    simpl. intros [Ha|[]].
+    destruct o as [| t' x l | | |]; try discriminate. destruct ph; [discriminate|].
+    injection Ha as <-. split; [rewrite E; reflexivity|rewrite Eo; reflexivity].
+Qed.
+
+Ltac open_flight E := cbn [fst snd o_m o_cur]; unfold mstep; rewrite ?E; cbn [fst snd m_pend]; unfold upd.
+
+Lemma ostep_in_flight s e t : in_flight_enter (fst (ostep R c s e)) t ->
+  in_flight_enter s t \/ exists x l, e = OBegin (Enter t x l).
+Proof.
+  unfold in_flight_enter. destruct e as [o | u]; simpl ostep.
+  - destruct (m_pend (o_m s) (thr o)) as [|ab rest] eqn:E; [|auto].
+    open_flight E. destruct (Nat.eqb_spec t (thr o)) as [->|Hn]; [|auto].
+    intros [_ He]. simpl in He. destruct o as [| t' x l | | |]; try discriminate. right. eauto.
+  - destruct (m_pend (o_m s) u) as [|[a lp] rest] eqn:E.
+    + open_flight E. auto.
+    + destruct lp.
+      * destruct (o_cur s u) as [o ph] eqn:Eo. open_flight E.
+        destruct (Nat.eqb_spec t u) as [->|Hn]; [|auto].
+        intros [Hl He]. left. rewrite E, Eo. simpl in *. auto.
+      * open_flight E. destruct (Nat.eqb_spec t u) as [->|Hn]; [|auto].
+        intros [Hl He]. left. rewrite E. simpl. auto.
+Qed.
+
+Lemma orun_save_origin : forall l s t, inv c (o_m s) -> kinv R c s ->
+  In (ASaveOp t) (snd (orun R c s l)) ->
+  in_flight_enter s t \/ exists x lf, In (OBegin (Enter t x lf)) l.
+Proof.
+  induction l as [|e l IH]; intros s t I K; simpl; [intros []|].
+  destruct (ostep_inv R c s e I K) as [I1 K1].
+  pose proof (ostep_save_origin s e t K) as O1. pose proof (ostep_in_flight s e t) as F1.
+  destruct (ostep R c s e) as [s1 h1]. simpl in *.
+  specialize (IH s1 t I1 K1). destruct (orun R c s1 l) as [s2 h2]. simpl in *.
+  intros Hin. apply in_app_or in Hin. destruct Hin as [Hin|Hin]; [left; now apply O1|].
+  destruct (IH Hin) as [Hf|(x & lf & Hx)].
+  - destruct (F1 Hf) as [Hs|(x & lf & ->)]; [now left|right; exists x, lf; now left].
+  - right. exists x, lf. now right.
+Qed.
+
+(* P5 with the hypothesis on the PROGRAMS: if every thread for which the schedule begins a context entry
+   already holds a selection of its own in the start state, every schedule run to quiescence is an atomic
+   history of whole operations *)
+Theorem micro_own_selection_atomic_programs b0 l :
+  let s := fst (orun R c (quiet b0) l) in
+  (forall t, m_pend (o_m s) t = []) ->
+  (forall t x lf, In (OBegin (Enter t x lf)) l -> p_tls (b_priv b0 t) <> None) ->
+  exists h : list op,
+    seqv (to_st (m_b (o_m s))) (run R c (to_st b0) h) /\
+    forall t, p_out (b_priv (m_b (o_m s)) t) = p_out (b_priv b0 t) ++ own_trace R c t (to_st b0) h.
+Proof.
+  cbv zeta. intros Q Hown. apply micro_own_selection_atomic; [exact Q|].
+  apply saves_own_from_start. intros t Hin.
+  destruct (quiet_ok R c b0) as (I & K & _).
+  destruct (orun_save_origin l (quiet b0) t I K Hin) as [[Hl _]|(x & lf & Hx)].
+  - simpl in Hl. discriminate.
+  - eapply Hown. exact Hx.
+Qed.
+
+End Prog.
+
+(* non-vacuity: thread 2 starts with Obj 5 selected; its NON-local entry is split by thread 1's set_backend *)
+Definition b01 : bst :=
+  {| b_shared := Named 0;
+     b_priv := fun t => if Nat.eqb t 2 then {| p_tls := Some (Obj 5); p_ctx := []; p_reg := Named 0; p_out := [] |} else p0 |}.
+Definition sched_prog : list oev :=
+  [OBegin (Enter 2 (SInst (Obj 0)) false); OTick 2;
+   OBegin (Set_ 1 (SName 1) false); OTick 1; OTick 1; OTick 1;
+   OTick 2; OTick 2; OTick 2; OTick 1; OTick 2; OTick 2;
+   OBegin (Exit_ 2 true); OTick 2; OTick 2; OTick 2; OTick 2; OTick 2; OBegin (Query 3); OTick 3].
+
+Lemma own_selection_programs_nonvacuous :
+  let r := orun fixed_rules cfg0 (quiet b01) sched_prog in
+  (forall t, m_pend (o_m (fst r)) t = []) /\
+  (forall t x lf, In (OBegin (Enter t x lf)) sched_prog -> p_tls (b_priv b01 t) <> None) /\
+  snd r = [ASaveOp 2; AOp (Set_ 1 (SName 1) false); AEnterRest 2 (SInst (Obj 0)) false; AOp (Exit_ 2 true); AOp (Query 3)] /\
+  p_out (b_priv (m_b (o_m (fst r))) 2) = [ODone; OReraised] /\
+  p_out (b_priv (m_b (o_m (fst r))) 3) = [OName 6].
+Proof.
+  cbv zeta. split; [|split].
+  - intros t. do 4 (destruct t as [|t]; [vm_compute; reflexivity|]). vm_compute. reflexivity.
+  - intros t x lf Hin. simpl in Hin.
+    repeat (destruct Hin as [Hin|Hin]; [try discriminate; injection Hin as <- _ _; simpl; discriminate|]). destruct Hin.
   - vm_compute. repeat split.
 Qed.
